@@ -118,6 +118,7 @@ func runVec(c *hx.Ctx, v vec, reps int) {
 // draw so that all map iteration orders appear), then random larger vectors.
 func Run(c *hx.Ctx) {
 	runWC(c)
+	runCWC(c)
 	runWRR(c)
 	runCWRR(c)
 	runWRRH(c)
